@@ -76,20 +76,23 @@ def model_post(res) -> list:
 def apply_pass(circuit, p: list):
     """p = ["decompose", name] | ["merge"] | ["replace", target, rule] | ["map", perm] | ["reparse"]."""
     k = p[0]
+    # every second call (by the size of the circuit, so that it replays) passes the arguments by keyword
+    kw = len(circuit.ir.statements) % 2 == 1
     if k == "decompose":
-        circuit.decompose(decomposer(p[1]))
+        circuit.decompose(decomposer=decomposer(p[1])) if kw else circuit.decompose(decomposer(p[1]))
     elif k == "merge":
         circuit.merge_single_qubit_gates()
     elif k == "replace":
         from opensquirrel import default_gates as dg
 
         target = getattr(dg, p[1])
-        circuit.replace(target, RULES[p[2]])
+        circuit.replace(f=RULES[p[2]], gate_generator=target) if kw else circuit.replace(target, RULES[p[2]])
     elif k == "map":
         from opensquirrel.mapper import HardcodedMapper
         from opensquirrel.mapper.mapping import Mapping
 
-        circuit.map(HardcodedMapper(circuit.qubit_register_size, Mapping(list(p[1]))))
+        mapper = HardcodedMapper(circuit.qubit_register_size, Mapping(list(p[1])))
+        circuit.map(mapper=mapper) if kw else circuit.map(mapper)
     elif k == "reparse":
         from opensquirrel.circuit import Circuit
 
